@@ -155,6 +155,25 @@ pub fn run_sim(c: &SimCfg, progress: bool) -> (u64, u64, u64, u64) {
 }
 
 pub fn random_cfg(rng: &mut Sm, i: usize) -> SimCfg {
+    // every seventh configuration is a *crowded* one: hundreds of agents per set and full activity, so that single
+    // steps carry many hundreds of instructions (batch-size dependent code paths), over few steps to bound the cost
+    if i % 7 == 6 {
+        return SimCfg {
+            composition: (i % 8) as u8,
+            seed: rng.next(),
+            n_steps: rng.range(3, 12),
+            step_size: *rng.pick(&[2000u64, 100_000]),
+            ticks: vec![rng.range(1, 10) as u32, rng.range(1, 10) as u32, rng.range(1, 10) as u32],
+            n_agents: rng.range(150, 450) as u16,
+            activity: 1.0,
+            p_limit: *rng.pick(&[0.6, 1.0]),
+            p_market: *rng.pick(&[0.1, 0.4]),
+            p_cancel: *rng.pick(&[0.2, 0.6]),
+            sigma: *rng.pick(&[0.5, 1.0]),
+            demand: *rng.pick(&[1.0, 10.0]),
+            center: rng.range(500, 20_000) as u32,
+        };
+    }
     SimCfg {
         composition: (i % 8) as u8,
         // most seeds are random 64-bit values; every tenth configuration uses a very small seed (0, 1, 2, ...)
@@ -332,7 +351,7 @@ pub fn c09(ctx: &Ctx) -> i32 {
     let cov = json!({
         "evaluations": runs + children,
         "distinct_nontrivial": d.len(),
-        "rule": "cases = complete simulation runs through sim_runner / market_sim_runner: 8 compositions of the built-in agents through both derive macros (incl. nested sets; 1, 2 and 3 assets), random seeds, step counts 1..120 and 200..420, step sizes, ticks 1..10 and agent parameters; each configuration is run twice in-process, once in a child OS process and once in a child with the progress bar (children get perturbed environment variables, working directory and heap), and once more with seed+1; compared through a 128-bit FNV digest of all orders, trades, every recorded series and the clock; distinct = distinct digests; non-trivial = the run traded",
+        "rule": "cases = complete simulation runs through sim_runner / market_sim_runner: 8 compositions of the built-in agents through both derive macros (incl. nested sets; 1, 2 and 3 assets), random seeds, step counts 1..120 and 200..420 (every seventh configuration is crowded instead: 150..450 agents per set at full activity, several hundred instructions per step, 3..12 steps), step sizes, ticks 1..10 and agent parameters; each configuration is run twice in-process, once in a child OS process and once in a child with the progress bar (children get perturbed environment variables, working directory and heap), and once more with seed+1; compared through a 128-bit FNV digest of all orders, trades, every recorded series and the clock; distinct = distinct digests; non-trivial = the run traded",
         "samples": samples,
         "in_process_runs": runs,
         "child_process_runs": children,
